@@ -128,6 +128,66 @@ def check_part(ctx, case, outpars, srcpars, dup, features, mult=None, roots=None
     return not bad
 
 
+def closing_oracle(ctx, data, v, real=False):
+    good = True
+    # C02_post_part (any tree, duplicate_merged_cells=False): the records are the paragraphs the walk descends to, each once, in
+    # the order of their closing tags.  Three computations of that list are compared: the implementation's records, the harness's
+    # own reading of the source, and the Lean function `post` the theorem speaks about.
+    try:
+        import impl
+        co = impl.closing_order(data)
+        ords = pk.model_case(data, False, False)[1]
+        if 'err' in co:
+            ctx.count('closing-order oracle: docx2python raised (charged to C13)')
+        else:
+            for ty, eg in co['types'].items():
+                if not eg['expected'] and not eg['got']: continue
+                ctx.count('closing-order oracle (C02_post_part): part types compared' + (' (real documents)' if real else ''))
+                if eg['expected'] != eg['got']:
+                    good = False
+                    k = next((j for j, (a, b) in enumerate(zip(eg['expected'], eg['got'])) if a != b), min(len(eg['expected']), len(eg['got'])))
+                    ctx.fail('with duplicate_merged_cells=False the paragraph records of a part are not its source paragraphs, each once, in the order of their closing tags',
+                             case_payload(data, html=False, dup=False), {'type': ty, 'first difference at': k, 'got': eg['got'][max(0, k - 2):k + 3]},
+                             {'expected': eg['expected'][max(0, k - 2):k + 3]},
+                             features=['closing-order', 'lost' if len(eg['got']) < len(eg['expected']) else ('doubled' if len(eg['got']) > len(eg['expected']) else 'moved')])
+            # C02_post_part_dup: the same with duplicate_merged_cells=True for parts in which no cell continues a vertical merge
+            # (`vfree`, evaluated by the Lean model); the copies in merged cells are deep copies and carry no element of the part
+            vf = (v or {}).get('<vfree>') if isinstance(v, dict) else None
+            if isinstance(vf, dict) and vf and all(x is True for x in vf.values()):
+                cd = impl.closing_order(data, dup=True)
+                if 'err' not in cd:
+                    for ty, eg in cd['types'].items():
+                        if not eg['expected'] and not eg['got']: continue
+                        ctx.count('closing-order oracle, duplicate_merged_cells=True (C02_post_part_dup: vfree holds for every part)' + (' (real documents)' if real else ''))
+                        if eg['expected'] != eg['got']:
+                            good = False
+                            k = next((j for j, (a, b) in enumerate(zip(eg['expected'], eg['got'])) if a != b), min(len(eg['expected']), len(eg['got'])))
+                            ctx.fail('with duplicate_merged_cells=True and no vertical merge the paragraph records (copies aside) are not the source paragraphs, each once, in the order of their closing tags',
+                                     case_payload(data, html=False, dup=True), {'type': ty, 'first difference at': k, 'got': eg['got'][max(0, k - 2):k + 3]},
+                                     {'expected': eg['expected'][max(0, k - 2):k + 3]},
+                                     features=['closing-order', 'lost' if len(eg['got']) < len(eg['expected']) else ('doubled' if len(eg['got']) > len(eg['expected']) else 'moved')])
+            elif isinstance(vf, dict) and vf:
+                ctx.count('a cell continues a vertical merge: C02_post_part_dup does not apply (C02_post_part, duplication off, does)')
+            mp = (v or {}).get('<post>') if isinstance(v, dict) else None
+            if isinstance(mp, dict):
+                for path, pe in co['paths'].items():
+                    if not isinstance(mp.get(path), list): continue
+                    mine = [ords.get(i) for i in mp[path]]
+                    ctx.count('closing-order oracle: Lean `post` = the harness\'s reading of the source')
+                    if mine != pe['post']:
+                        good = False
+                        ctx.diff('`post` of the Lean model differs from the closing order of the source paragraphs', case_payload(data, html=False, dup=False), pe['post'][:12], mine[:12], path=path)
+                    fl = (v.get('<flat>') or {}).get(path)
+                    if fl is not None and fl != pe['flat']:
+                        good = False
+                        ctx.diff('`leafIds = pre` of the Lean model differs from the harness (no paragraph encloses another one)', case_payload(data, html=False, dup=False), pe['flat'], fl, path=path)
+                    ctx.count(('part in which no paragraph encloses another one (C02_post_document_order applies)' if pe['flat']
+                               else 'part with paragraphs nested in paragraphs (text boxes): C02_post_part / C02_post_leaves_in_order') + (' (real documents)' if real else ''))
+    except Exception as e:
+        ctx.notes.append('closing-order oracle not evaluated: ' + type(e).__name__ + ': ' + str(e)[:100])
+    return good
+
+
 def one(ctx, data, meta=None, opts=((False, True), (False, False))):
     ctx.evaluations += 1; good = True
     parts = src.parts_of(data); cps = src.content_parts(data)
@@ -151,7 +211,8 @@ def one(ctx, data, meta=None, opts=((False, True), (False, False))):
                 if ok is True: ctx.count('notesPartOK holds (hypotheses of C02_notes_part: a notes part of admissible notes)')
             if v.get('<groups>'): ctx.count('groups of inline content outside paragraphs (C02_stray_group)', v['<groups>'])
     except Exception:
-        pass
+        v = None
+    if not closing_oracle(ctx, data, v): good = False
     for html, dup, i, m in observe(ctx, data, opts, want=['plain', 'text']):
         case = case_payload(data, html=html, dup=dup)
         if not compare_keys(ctx, 'plain view', data, html, dup, i, m, VIEWS + ['text']): good = False
@@ -179,6 +240,7 @@ def run(ctx):
         try:
             v = ctx.drv.ask({**pk.model_case(open(f, 'rb').read(), False, True)[0], 'op': 'valid'})
             po, no = (v.get('<partok>') or {}), (v.get('<notesok>') or {})
+            closing_oracle(ctx, open(f, 'rb').read(), v, real=True)
             for path in po:
                 if (v.get('<deepok>') or {}).get(path) is True: ctx.count('real documents: content part under C02_deep_once_in_order')
                 if (v.get('<deepcok>') or {}).get(path) is True: ctx.count('real documents: content part under C02_deepC_once_in_order')
